@@ -1,0 +1,233 @@
+//go:build verif
+
+package engine
+
+// C05, no-panic coverage of the code that processes untrusted text: index/slice bounds (idx) and nil dereference (nil).
+
+//@ type tokenKind invariant[valid] self <= 19
+
+//@ func tokenKind.String
+//@   property C05
+//@   modifies nothing
+
+//@ func doubleQuotes.String
+//@   property C05
+//@   modifies nothing
+
+//@ func ioMode.Term
+//@   property C05
+//@   safety only idx
+//@   checks only idx
+//@   modifies nothing
+//@   trusted-frame
+
+//@ func (*Parser).variable
+//@   property C05
+//@   requires p != nil
+//@   loop 1 invariant[the-index-of-the-variable-looked-at-is-never-negative] -1 <= $i && $i < len(p.Vars) && p.Vars == old(p.Vars)
+//@   safety only idx nil
+//@   checks only idx nil inv-entry inv-keep pre@call
+//@   trusted-frame
+
+//@ func (*Parser).list
+//@   property C05
+//@   requires p != nil
+//@   loop 1 invariant true
+//@   safety only idx nil
+//@   checks only idx nil inv-entry inv-keep
+//@   trusted-frame
+
+//@ func numberCharsWrite
+//@   property C05
+//@   loop 1 invariant true
+//@   loop 2 invariant[the-index-of-the-character-written-is-inside-the-list-made-for-the-characters] -1 <= $i && $i < len(local(cs, []Term))
+//@   safety only idx nil
+//@   checks only idx nil inv-entry inv-keep pre@call
+//@   trusted-frame
+
+//@ func numberCodesWrite
+//@   property C05
+//@   loop 1 invariant true
+//@   loop 2 invariant[the-index-of-the-code-written-is-inside-the-list-made-for-the-codes] -1 <= $i && $i < len(local(cs, []Term))
+//@   safety only idx nil
+//@   checks only idx nil inv-entry inv-keep pre@call
+//@   trusted-frame
+
+//@ func CharConversion
+//@   property C05
+//@   requires vm != nil
+//@   safety only idx nil mapnil
+//@   checks only idx nil mapnil inv-entry inv-keep pre@call
+//@   trusted-frame
+
+//@ func CurrentCharConversion
+//@   property C05
+//@   requires vm != nil
+//@   loop 1 invariant[the-code-enumerated-is-inside-the-table-of-alternatives] 0 <= local(i, int) && local(i, int) <= 256
+//@   safety only idx
+//@   checks only idx inv-entry inv-keep pre@call
+//@   trusted-frame
+
+//@ func CurrentPrologFlag
+//@   property C05
+//@   requires vm != nil
+//@   loop 1 invariant[the-index-of-the-flag-is-inside-the-table-of-flags] -1 <= $i && $i < len(local(flags, []Term))
+//@   safety only idx nil
+//@   checks only idx nil inv-entry inv-keep pre@call
+//@   trusted-frame
+
+//@ func (*streams).remove
+//@   property C05
+//@   requires ss != nil && s != nil
+//@   loop 1 invariant[the-table-is-not-touched-before-the-stream-is-found] -1 <= $i && $i < len(ss.elems) && ss.elems == old(ss.elems)
+//@   safety only idx nil
+//@   checks only idx nil inv-entry inv-keep pre@call
+//@   trusted-frame
+
+//@ func (*streams).add
+//@   property C05
+//@   requires ss != nil && s != nil
+//@   safety only idx nil mapnil
+//@   checks only idx nil mapnil inv-entry inv-keep pre@call
+//@   trusted-frame
+
+//@ extern strings.HasPrefix
+//@   -- "HasPrefix reports whether the string s begins with prefix."
+//@   pure
+//@   ensures result ==> len(s) >= len(prefix)
+//@ extern strings.Index
+//@   -- "Index returns the index of the first instance of substr in s, or -1 if substr is not present in s."
+//@   pure
+//@   ensures result == -1 || (0 <= result && result + len(substr) <= len(s))
+
+//@ func ignoreShebangLine
+//@   property C05
+//@   modifies nothing
+
+//@ extern reflect.ValueOf
+//@   -- "ValueOf returns a new Value initialized to the concrete value stored in the interface i. ValueOf(nil) returns
+//@   -- the zero Value." It reads its argument and writes no memory of the program.
+//@   pure
+
+//@ func list.termID
+//@   property C05
+//@   modifies nothing
+
+//@ func writeCompoundOp
+//@   property C05
+//@   requires op != nil
+//@   safety only idx
+//@   checks only idx inv-entry inv-keep pre@call
+//@   trusted-frame
+
+//@ func (*Stream).Close
+//@   property C05
+//@   requires s != nil
+//@   safety only idx nil
+//@   checks only idx nil inv-entry inv-keep pre@call
+//@   trusted-frame
+
+//@ func (*Stream).Name
+//@   property C05
+//@   requires s != nil
+//@   safety only idx nil
+//@   checks only idx nil inv-entry inv-keep pre@call
+//@   trusted-frame
+
+//@ func (*Stream).Seek
+//@   property C05
+//@   requires s != nil
+//@   safety only idx nil
+//@   checks only idx nil inv-entry inv-keep pre@call
+//@   trusted-frame
+
+//@ func (*Stream).WriteByte
+//@   property C05
+//@   requires s != nil
+//@   requires[an-output-stream-has-a-sink] (s.mode == ioModeWrite || s.mode == ioModeAppend) ==> s.sink != nil
+//@   safety only idx nil
+//@   checks only idx nil inv-entry inv-keep pre@call
+//@   trusted-frame
+
+//@ func (*Stream).WriteRune
+//@   property C05
+//@   requires s != nil
+//@   requires[an-output-stream-has-a-sink] (s.mode == ioModeWrite || s.mode == ioModeAppend) ==> s.sink != nil
+//@   safety only idx nil
+//@   checks only idx nil inv-entry inv-keep pre@call
+//@   trusted-frame
+
+//@ func NumberChars
+//@   property C05
+//@   requires vm != nil
+//@   loop 1 invariant true
+//@   safety only idx nil tassert
+//@   checks only idx nil tassert inv-entry inv-keep pre@call
+//@   trusted-frame
+
+//@ func NumberCodes
+//@   property C05
+//@   requires vm != nil
+//@   loop 1 invariant true
+//@   safety only idx nil tassert
+//@   checks only idx nil tassert inv-entry inv-keep pre@call
+//@   trusted-frame
+
+//@ type unknownAction invariant[valid] self == 0 || self == 1 || self == 2
+
+//@ func unknownAction.String
+//@   property C05
+//@   modifies nothing
+// The lexer hands itself on as a continuation through the escape sequences of quoted tokens (escapeSequence and the two
+// functions it calls invoke `cont()`): the function value called is never nil - every caller passes a method value
+// or a function literal (at-call pins), and the three functions pass on what they were given.
+//@ func (*Lexer).quotedToken
+//@   property C05
+//@   requires l != nil
+//@   loop 1 invariant true
+//@   at-call (*Lexer).escapeSequence requires[a-continuation-is-given] a0 == l && a1 != nil
+//@   safety only nil
+//@   checks only nil at-call at-call-missing inv-entry inv-keep
+//@   trusted-frame
+
+//@ func (*Lexer).doubleQuotedListToken
+//@   property C05
+//@   requires l != nil
+//@   loop 1 invariant true
+//@   at-call (*Lexer).escapeSequence requires[a-continuation-is-given] a0 == l && a1 != nil
+//@   safety only nil
+//@   checks only nil at-call at-call-missing inv-entry inv-keep
+//@   trusted-frame
+
+//@ func (*Lexer).characterCodeConstant
+//@   property C05
+//@   requires l != nil
+//@   at-call (*Lexer).escapeSequence requires[a-continuation-is-given] a1 != nil
+//@   safety only nil
+//@   checks only nil at-call at-call-missing inv-entry inv-keep
+//@   trusted-frame
+
+//@ func (*Lexer).escapeSequence
+//@   property C05
+//@   requires l != nil && cont != nil
+//@   at-call (*Lexer).octalEscapeSequence requires[the-continuation-is-passed-on] a0 == l && a1 == cont
+//@   at-call (*Lexer).hexadecimalEscapeSequence requires[the-continuation-is-passed-on] a0 == l && a1 == cont
+//@   safety only nil
+//@   checks only nil at-call at-call-missing inv-entry inv-keep
+//@   trusted-frame
+
+//@ func (*Lexer).octalEscapeSequence
+//@   property C05
+//@   requires l != nil && cont != nil
+//@   loop 1 invariant true
+//@   safety only nil
+//@   checks only nil at-call at-call-missing inv-entry inv-keep
+//@   trusted-frame
+
+//@ func (*Lexer).hexadecimalEscapeSequence
+//@   property C05
+//@   requires l != nil && cont != nil
+//@   loop 1 invariant true
+//@   safety only nil
+//@   checks only nil at-call at-call-missing inv-entry inv-keep
+//@   trusted-frame
